@@ -37,8 +37,96 @@ func leafDigest(ls []mxj.LeafNode) string {
 }
 
 // legacy battery: returns the names of the functions that disagree with their composition.
+// c20WrapExec runs one of x2j-wrapper's own walkers on a JSON-shaped Map (ops wfrom / wat / wpfk: compared
+// with Model/Wrapper by the driver) and evaluates the documented core composition beside it.
+func c20WrapExec(c *cur, name string) string {
+	m := c.mapVal()
+	arg := c.str()
+	attrs := false
+	if name != "wpfk" {
+		attrs = c.boolean()
+	}
+	if c.err != nil {
+		return "bad-op " + c.err.Error()
+	}
+	mval := func(v []interface{}) string { return sortedList(encList(v)) }
+	mv := mxj.Map(m)
+	switch name {
+	case "wpfk":
+		ps := append([]string{}, x2jw.PathsForKey(m, arg)...)
+		sort.Strings(ps)
+		core := append([]string{}, mv.PathsForKey(arg)...)
+		sort.Strings(core)
+		note := ""
+		if strings.Join(ps, "\x00") != strings.Join(core, "\x00") {
+			note = fmt.Sprintf(" | WRAPCORE x2j-wrapper.PathsForKey returns %q, Map.PathsForKey %q", ps, core)
+		}
+		if a, b := x2jw.PathForKeyShortest(m, arg), mv.PathForKeyShortest(arg); segCount(a) != segCount(b) || (a == "") != (b == "") {
+			note += fmt.Sprintf(" | WRAPCORE x2j-wrapper.PathForKeyShortest returns %q, Map.PathForKeyShortest %q", a, b)
+		}
+		return "ok " + encStrList(ps) + note
+	case "wfrom":
+		vs := x2jw.ValuesFromKeyPath(m, arg, attrs)
+		note := ""
+		if !strings.HasSuffix(arg, ".") && !strings.Contains(arg, "[") {
+			var want []interface{}
+			if attrs {
+				want, _ = mv.ValuesForPath(arg)
+			} else {
+				want = valuesNoAttrs(m, strings.Split(arg, "."))
+			}
+			if mval(vs) != mval(want) {
+				note = fmt.Sprintf(" | WRAPCORE x2j-wrapper.ValuesFromKeyPath(attrs=%v) returns %s, the core composition %s", attrs, clip(mval(vs), 300), clip(mval(want), 300))
+			}
+		}
+		if len(vs) == 0 {
+			vs = []interface{}{}
+		}
+		return "ok " + encList(vs) + note
+	default: // wat
+		vs := x2jw.ValuesAtKeyPath(m, arg, attrs)
+		note := ""
+		if !strings.HasSuffix(arg, ".") && !strings.Contains(arg, "[") {
+			segs := strings.Split(arg, ".")
+			var parent []interface{}
+			if len(segs) > 1 {
+				pp := strings.Join(segs[:len(segs)-1], ".")
+				if attrs {
+					parent, _ = mv.ValuesForPath(pp)
+				} else {
+					parent = valuesNoAttrs(m, segs[:len(segs)-1])
+				}
+			} else {
+				parent = []interface{}{m}
+			}
+			last := segs[len(segs)-1]
+			hit := last == "*" && len(parent) > 0
+			for _, p := range parent {
+				if pm, ok := p.(map[string]interface{}); ok {
+					if _, ok := pm[last]; ok {
+						hit = true
+					}
+				}
+			}
+			if !hit {
+				parent = nil
+			}
+			if mval(vs) != mval(parent) {
+				note = fmt.Sprintf(" | WRAPCORE x2j-wrapper.ValuesAtKeyPath(attrs=%v) returns %s, the parent values (when one of them holds the last key) are %s", attrs, clip(mval(vs), 300), clip(mval(parent), 300))
+			}
+		}
+		if len(vs) == 0 {
+			vs = []interface{}{}
+		}
+		return "ok " + encList(vs) + note
+	}
+}
+
 func c20Exec(op string) string {
-	c, _ := newCur(op)
+	c, name := newCur(op)
+	if name == "wfrom" || name == "wat" || name == "wpfk" {
+		return c20WrapExec(c, name)
+	}
 	c.pos++ // "legacy"
 	doc := []byte(c.str())
 	jtxt := []byte(c.str())
@@ -520,7 +608,16 @@ func valuesNoAttrs(m interface{}, keys []string) []interface{} {
 }
 
 func c20Describe(op string) string {
-	c, _ := newCur(op)
+	c, name := newCur(op)
+	if name == "wfrom" || name == "wat" || name == "wpfk" {
+		m := c.mapVal()
+		arg := c.str()
+		fn := map[string]string{"wfrom": "ValuesFromKeyPath", "wat": "ValuesAtKeyPath", "wpfk": "PathsForKey/PathForKeyShortest"}[name]
+		if name == "wpfk" {
+			return fmt.Sprintf("x2j-wrapper.%s map=%s key=%q", fn, jsonOf(m), arg)
+		}
+		return fmt.Sprintf("x2j-wrapper.%s map=%s path=%q getAttrs=%v", fn, jsonOf(m), arg, c.boolean())
+	}
 	c.pos++
 	doc := c.str()
 	jtxt := c.str()
@@ -533,6 +630,31 @@ func c20Describe(op string) string {
 }
 
 func c20Judge(op, impl, model string) Verdict {
+	if _, name := newCur(op); name == "wfrom" || name == "wat" || name == "wpfk" {
+		v := Verdict{Tags: []string{name}}
+		if strings.HasPrefix(impl, "panic") {
+			v.OracleFail = "x2j-wrapper " + name + " panicked: " + impl
+			v.Sig = name + ":panic"
+			return v
+		}
+		ip := splitModel(impl)
+		if len(ip) > 1 {
+			v.OracleFail = strings.Join(ip[1:], "; ")
+			v.Sig = name + ":core"
+		}
+		if name == "wpfk" {
+			v.CorrOK = sortedList(strings.TrimPrefix(ip[0], "ok ")) == sortedList(strings.TrimPrefix(model, "ok "))
+		} else {
+			v.CorrOK = canonRes(ip[0], true) == canonRes(model, true)
+		}
+		v.Nontrivial = ip[0] != "ok [ ]"
+		if v.Nontrivial {
+			v.Tags = append(v.Tags, name+":match")
+		} else {
+			v.Tags = append(v.Tags, name+":nomatch")
+		}
+		return v
+	}
 	v := Verdict{Tags: []string{"legacy"}, CorrOK: true, Nontrivial: true}
 	if strings.HasPrefix(impl, "panic") {
 		v.OracleFail = "a legacy function panicked: " + impl
@@ -588,6 +710,28 @@ func c20Gen(r *Rng, n int) []string {
 		if r.P(40) {
 			nv = map[string]interface{}{r.Pick([]string{"a", "b", "k"}): "NEW"}
 		}
+		if r.P(45) {
+			// x2j-wrapper's own walkers on Maps of JSON shape (empty lists and maps, nulls, lists in lists,
+			// attribute-like keys): compared with the wrapper model and with the core composition
+			cfg := jsonShape
+			cfg.Keys = []string{"a", "b", "c", "k", "item", "-x", "-id", "#text", "list", "d", "2"}
+			if r.P(20) {
+				cfg.ListInList = true
+			}
+			wm := r.RootMap(&cfg)
+			ms := enc(wm)
+			for j := 0; j < 2; j++ {
+				wp := r.DerivedPath(wm, false, 4)
+				if strings.Contains(wp, "[") || hasEmptyKey(wm) {
+					continue
+				}
+				ops = append(ops, fmt.Sprintf("wfrom %s %s %d", ms, encStr(wp), b2i(r.Bool())))
+				ops = append(ops, fmt.Sprintf("wat %s %s %d", ms, encStr(wp), b2i(r.P(70))))
+				if r.P(40) {
+					ops = append(ops, fmt.Sprintf("wpfk %s %s", ms, encStr(r.Pick(cfg.Keys))))
+				}
+			}
+		}
 		ops = append(ops, fmt.Sprintf("implonly legacy %s %s %s %s %s %s %s %d %d", encStr(doc), encStr(jtxt), encStr(key), encStr(path), encStrList(subs), encStrList(pairs), enc(nv), b2i(r.Bool()), b2i(r.Bool())))
 	}
 	return ops
@@ -601,7 +745,27 @@ func init() {
 		Exec:      c20Exec,
 		Judge:     c20Judge,
 		Describe:  c20Describe,
-		QuickN:    1500,
-		ThoroughN: 60000,
+		QuickN:    3000,
+		ThoroughN: 90000,
 	})
+}
+
+// hasEmptyKey: some map inside v has the key "" (x2j-wrapper's wildcard step slices k[:1]; Maps decoded
+// from XML have no empty keys, and C20's domain are the C01/C03/C07 domains)
+func hasEmptyKey(v interface{}) bool {
+	switch t := v.(type) {
+	case map[string]interface{}:
+		for k, e := range t {
+			if k == "" || hasEmptyKey(e) {
+				return true
+			}
+		}
+	case []interface{}:
+		for _, e := range t {
+			if hasEmptyKey(e) {
+				return true
+			}
+		}
+	}
+	return false
 }
